@@ -417,8 +417,258 @@ def source_tie(chk, cases, outs):
 # CTCPrefixSearch (regime T)
 # ------------------------------------------------------------------------------------------
 
+# ---- composite fused language models (round 4: the state of EVERY part has to follow the beam) ----------------
+# case["lm"] = {"comp": node}; node = a leaf
+#   {"k": "fsm", "enc": one of FSM_ENCS, "key": name of its state entry, "M", "s0", "trans": M x (V+1), "table": M x V,
+#    "raw": bool, "s0s": per-element initial state or None}        (a finite-state LM: state' = trans[state][token or V
+#    for start-of-sequence], row = table[state']; "enc" = how the state is laid out in the state dict; enc "hist" keeps
+#    NO state and re-reads the history instead)
+#   {"k": "lookup", "sos", "bi": (V+1) x V}                        (the library's LookupLanguageModel, a full bigram table)
+# or the library's own wrapper {"k": "fuse", "first": node, "second": node, "beta", "fp", "sp"} =
+# MixableShallowFusionLanguageModel(first, second, beta, fp, sp), nested at will.  The oracle (_comp_rows) computes
+# first(p) + beta * second(p) afresh for every prefix p from the leaves' definitions: no state, no extract_by_src, no
+# mix_by_mask; the model gets it as a finite map prefix -> row (_comp_lm_term).
+FSM_ENCS = ("long", "onehot", "onehotT", "split", "cell", "hist")
+_FSM = None
+
+
+def _fsm_encode(enc, key, M, s, dtype):
+    """state dict of a finite-state leaf whose batch of states is the long vector s"""
+    if enc == "long":
+        return {key: s}                                                    # (B,) long
+    if enc == "onehot":
+        return {key: torch.nn.functional.one_hot(s, M).to(dtype)}          # (B, M) float, like an RNN's hidden vector
+    if enc == "onehotT":
+        return {key: torch.nn.functional.one_hot(s, M).to(dtype).t()}      # (M, B): batch dimension LAST
+    if enc == "split":
+        return {key + "_lo": s % 2, key + "_hi": (s // 2).unsqueeze(1)}    # two entries of different shapes
+    if enc == "cell":
+        return {key: s.view(1, -1, 1)}                                     # (1, B, 1): batch dimension in the middle
+    return {}                                                              # "hist": stateless
+
+
+def _fsm_classes():
+    global _FSM
+    if _FSM is not None:
+        return _FSM
+    from pydrobert.torch.modules import MixableSequentialLanguageModel
+
+    class FsmLM(MixableSequentialLanguageModel):
+        enc = "long"
+
+        def __init__(self, V, node, dtype):
+            super().__init__(V)
+            self.key, self.M, self.s0, self.raw = node.get("key", "h"), node["M"], node["s0"], bool(node.get("raw"))
+            self.register_buffer("trans", torch.tensor(node["trans"], dtype=torch.long))
+            self.register_buffer("table", torch.tensor(node["table"], dtype=dtype))
+
+        def encode(self, s):
+            return _fsm_encode(self.enc, self.key, self.M, s, self.table.dtype)
+
+        def decode(self, prev):
+            return prev[self.key]
+
+        def batch_dims(self):
+            return {self.key: 0}
+
+        def update_input(self, prev, hist):
+            if len(prev):
+                return prev
+            return self.encode(torch.full((hist.size(1),), self.s0, dtype=torch.long))
+
+        def extract_by_src(self, prev, src):
+            return {k: prev[k].index_select(d, src) for k, d in self.batch_dims().items()}
+
+        def mix_by_mask(self, prev_true, prev_false, mask):
+            out = {}
+            for k, d in self.batch_dims().items():
+                a, b = prev_true[k], prev_false[k]
+                if a.shape != b.shape or a.dtype != b.dtype:
+                    raise RuntimeError(f"mix_by_mask: entry '{k}' has {tuple(a.shape)} {a.dtype} in one state and "
+                                       f"{tuple(b.shape)} {b.dtype} in the other")
+                shape = [1] * a.dim()
+                shape[d] = -1
+                out[k] = torch.where(mask.view(shape), a, b)
+            return out
+
+        def calc_idx_log_probs(self, hist, prev, idx):
+            B = hist.size(1)
+            idx = idx.expand(B) if idx.dim() == 0 else idx
+            if hist.size(0) == 0:
+                x = torch.full((B,), self.vocab_size, dtype=torch.long)
+            else:
+                x = hist.gather(0, (idx - 1).clamp(min=0).unsqueeze(0)).squeeze(0)
+                x = torch.where(idx == 0, torch.full_like(x, self.vocab_size), x)
+            s1 = self.trans[self.decode(prev), x]
+            row = self.table[s1]
+            return (row if self.raw else row.log_softmax(-1)), self.encode(s1)
+
+    class OneHotLM(FsmLM):
+        enc = "onehot"
+
+        def decode(self, prev):
+            return prev[self.key].argmax(1)
+
+    class OneHotTLM(FsmLM):
+        enc = "onehotT"
+
+        def decode(self, prev):
+            return prev[self.key].argmax(0)
+
+        def batch_dims(self):
+            return {self.key: 1}
+
+    class SplitLM(FsmLM):
+        enc = "split"
+
+        def decode(self, prev):
+            return prev[self.key + "_lo"] + 2 * prev[self.key + "_hi"].squeeze(1)
+
+        def batch_dims(self):
+            return {self.key + "_lo": 0, self.key + "_hi": 0}
+
+    class CellLM(FsmLM):
+        enc = "cell"
+
+        def decode(self, prev):
+            return prev[self.key].view(-1)
+
+        def batch_dims(self):
+            return {self.key: 1}
+
+    class HistLM(FsmLM):
+        """no state at all: the state is recomputed from the history at every call"""
+        enc = "hist"
+
+        def batch_dims(self):
+            return {}
+
+        def update_input(self, prev, hist):
+            return prev
+
+        def calc_idx_log_probs(self, hist, prev, idx):
+            B = hist.size(1)
+            idx = idx.expand(B) if idx.dim() == 0 else idx
+            s = self.trans[torch.full((B,), self.s0, dtype=torch.long), self.vocab_size]
+            for i in range(hist.size(0)):
+                s = torch.where(i < idx, self.trans[s, hist[i].clamp(0, self.vocab_size - 1)], s)
+            row = self.table[s]
+            return (row if self.raw else row.log_softmax(-1)), {}
+
+    _FSM = {c.enc: c for c in (FsmLM, OneHotLM, OneHotTLM, SplitLM, CellLM, HistLM)}
+    return _FSM
+
+
+def _mk_comp(node, V, dtype):
+    if node["k"] == "fuse":
+        from pydrobert.torch.modules import MixableShallowFusionLanguageModel
+        kw = {}
+        if node.get("fp") is not None:
+            kw["first_prefix"] = node["fp"]
+        if node.get("sp") is not None:
+            kw["second_prefix"] = node["sp"]
+        return MixableShallowFusionLanguageModel(_mk_comp(node["first"], V, dtype), _mk_comp(node["second"], V, dtype),
+                                                 node["beta"], **kw)
+    if node["k"] == "lookup":
+        from pydrobert.torch.modules import LookupLanguageModel
+        sos = node["sos"]
+        ctxs = list(range(V)) + ([sos] if not 0 <= sos < V else [])
+        uni = {c: (-2.0, -0.5) for c in ctxs}
+        bi = {(c, v): node["bi"][V if c == sos and not 0 <= sos < V else c][v] for c in ctxs for v in range(V)}
+        return LookupLanguageModel(V, sos, [uni, bi])
+    return _fsm_classes()[node["enc"]](V, node, dtype)
+
+
+def _comp_leaves(node):
+    if node["k"] == "fuse":
+        return _comp_leaves(node["first"]) + _comp_leaves(node["second"])
+    return [node]
+
+
+def _comp_map(node, f):
+    """copy of the tree with f applied to every leaf"""
+    if node["k"] == "fuse":
+        return dict(node, first=_comp_map(node["first"], f), second=_comp_map(node["second"], f))
+    return f(dict(node))
+
+
+def _comp_rows(node, prefixes, V, dtype, n):
+    """(P, V) tensor: what the (fused) language model returns for each of the prefixes, from the DEFINITION (shallow
+    fusion: first + beta * second; finite-state leaf: table[state reached by reading start-of-sequence and the prefix];
+    bigram leaf: the entry for (last token or sos, v)), with torch's elementwise kernels in the library's order"""
+    if node["k"] == "fuse":
+        return _comp_rows(node["first"], prefixes, V, dtype, n) + node["beta"] * _comp_rows(node["second"], prefixes, V, dtype, n)
+    if node["k"] == "lookup":
+        sos = node["sos"]
+        bi = torch.tensor(node["bi"], dtype=torch.float32)      # the library keeps its tables in float32
+        return bi[[(p[-1] if p else (sos if 0 <= sos < V else V)) for p in prefixes]]
+    tab = torch.tensor(node["table"], dtype=dtype)
+    if not node.get("raw"):
+        tab = tab.log_softmax(-1)
+    s0 = node["s0"] if node.get("s0s") is None or n is None else node["s0s"][n]
+    idx = []
+    for p in prefixes:
+        s = node["trans"][s0][V]
+        for v in p:
+            s = node["trans"][s][v]
+        idx.append(s)
+    return tab[idx]
+
+
+def _comp_prefixes(V, L):
+    return [list(p) for l in range(L + 1) for p in itertools.product(range(V), repeat=l)]
+
+
+def _comp_final_rows(case, n, prefixes):
+    """the rows the module derives from the fused model's output (as lm_rows does for the hash LM)"""
+    tab = _comp_rows(case["lm"]["comp"], prefixes, case["V"], _dt(case), n)
+    if case["fusion"] == "mix":
+        rows = tab.softmax(-1)
+    else:
+        rows = (case["beta"] * tab.log_softmax(-1)).exp()
+    return [[canon_float(v) for v in r] for r in rows]
+
+
+def _comp_lm_term(case, n):
+    """Gallina function prefix -> row, a finite map over every prefix the element can ever hold"""
+    L = case["T"] if n is None else _len_of(case, n)
+    prefixes = _comp_prefixes(case["V"], L)
+    rows = _comp_final_rows(case, n, prefixes)
+    tab = cl([f"({cln(p)}, {clq(r)})" for p, r in zip(prefixes, rows)])
+    return (f"(fun p : list nat => match List.find (fun e : list nat * list Qc => list_nat_eqb (fst e) p) {tab} "
+            f"with Some e => snd e | None => [] end)")
+
+
+def _comp_init(node, pre, dtype, out):
+    """explicit initial state (full key paths) for the leaves that have per-element initial states"""
+    if node["k"] == "fuse":
+        _comp_init(node["first"], pre + (node.get("fp") or "first."), dtype, out)
+        _comp_init(node["second"], pre + (node.get("sp") or "second."), dtype, out)
+    elif node["k"] == "fsm" and node.get("s0s") is not None:
+        for k, v in _fsm_encode(node["enc"], node.get("key", "h"), node["M"], torch.tensor(node["s0s"], dtype=torch.long),
+                                dtype).items():
+            out[pre + k] = v
+    return out
+
+
+def _lm_pick(lm, ns):
+    """the LM description for the sub-batch of the elements ns (per-element initial states follow)"""
+    if not lm:
+        return lm
+    lm = dict(lm)
+    if lm.get("h0s") is not None:
+        lm["h0s"] = [lm["h0s"][n] for n in ns]
+    if lm.get("comp"):
+        lm["comp"] = _comp_map(lm["comp"], lambda leaf: dict(leaf, s0s=[leaf["s0s"][n] for n in ns])
+                               if leaf.get("s0s") is not None else leaf)
+    return lm
+
+
 def _mk_lm(case):
     from pydrobert.torch.modules import MixableSequentialLanguageModel
+
+    if case["lm"].get("comp"):
+        return _mk_comp(case["lm"]["comp"], case["V"], _dt(case))
 
     class HashLM(MixableSequentialLanguageModel):
         """state = hash of the prefix read so far; row = table[state].  Only correct if the search
@@ -518,7 +768,7 @@ def _mk_script_lm(case):
 
 
 def _scriptable(case):
-    return case["fusion"] != "none" and bool(case.get("lm")) and not case["lm"].get("fuse")
+    return case["fusion"] != "none" and bool(case.get("lm")) and not case["lm"].get("fuse") and not case["lm"].get("comp")
 
 
 def _lm_table(case):
@@ -549,6 +799,8 @@ def lm_rows(case):
 def _initial_state(case):
     """explicit initial LM state (third argument of the call) when the case has per-element h0s"""
     lm = case.get("lm")
+    if lm and lm.get("comp") and case["fusion"] != "none":
+        return _comp_init(lm["comp"], "", _dt(case), {}) or None
     if not lm or lm.get("h0s") is None or case["fusion"] == "none":
         return None
     h = torch.tensor(lm["h0s"], dtype=torch.long)
@@ -718,6 +970,8 @@ def _fus_lm_terms(case, n=None):
     if case["fusion"] == "none" or not case.get("lm") or not case["beta"]:  # "if self.lm is None or not self.beta"
         return "NoLM", "no_lm"
     lm = case["lm"]
+    if lm.get("comp"):
+        return (f"(Mix {cqc(Fraction(case['beta']))})" if case["fusion"] == "mix" else "Plain"), _comp_lm_term(case, n)
     tab = cl([clq(r) for r in lm_rows(case)])
     h0 = lm["h0"] if lm.get("h0s") is None or n is None else lm["h0s"][n]   # explicit initial state: per element
     lmt = f"(hash_lm {cn(lm['M'])} {cn(lm['a'])} {cn(h0)} {cn(case['V'])} {tab})"
@@ -775,7 +1029,7 @@ def spec_terms(case, out, limit=None):
         return [None]
     probs = _probs_of(case)
     fus, lmt = _fus_lm_terms(case)
-    lm_bits = _den_bits([v for r in lm_rows(case) for v in r]) if lmt != "no_lm" else 0
+    lm_bits = 0 if lmt == "no_lm" or case["lm"].get("comp") else _den_bits([v for r in lm_rows(case) for v in r])
     terms = []
     for n, e in enumerate(out["elems"]):
         if _elem_bad(e):
@@ -850,8 +1104,7 @@ def alone_check(case, out):
         sub = dict(case, N=1, T=ln, lens=None,
                    logits=[[case["logits"][t][n]] for t in range(ln)])
         sub.pop("via", None)
-        if case.get("lm") and case["lm"].get("h0s") is not None:
-            sub["lm"] = dict(case["lm"], h0s=[case["lm"]["h0s"][n]])
+        sub["lm"] = _lm_pick(case.get("lm"), [n])
         o2 = run_search(sub)
         if "exc" in o2:
             return f"element {n} alone raises {o2['exc']}"
@@ -980,10 +1233,129 @@ def gen_second_frame(rng):
     return case
 
 
+COMP_KEYS = ("h", "h", "state", "hidden", "first.h", "second.h", "second.")
+COMP_PREFIXES = ((None, None), (None, None), ("a.", "b."), ("lm1/", "lm2/"), ("x", "y"), ("second.", "first."),
+                 ("first.first.", "first.second."))   # never one a prefix of the other (corpus/C05/*.pending)
+
+
+def _gen_leaf(rng, V, enc=None, key=None, M=None, stateless_ok=True):
+    r = rng.random()
+    if enc is None and stateless_ok and r < 0.06:
+        # the library's stateless bigram model; entries on a 1/8 grid (exact in its float32 tables)
+        return dict(k="lookup", sos=rng.choice([V, V, rng.randrange(V)]),
+                    bi=[[-rng.randint(1, 32) / 8.0 for _ in range(V)] for _ in range(V + 1)])
+    if enc is None:
+        enc = "hist" if (stateless_ok and r < 0.16) else rng.choice(FSM_ENCS[:-1])
+    M = M or rng.choice([2, 3, 4, 5])
+    leaf = dict(k="fsm", enc=enc, key=key or rng.choice(COMP_KEYS), M=M, s0=rng.randrange(M),
+                trans=[[rng.randrange(M) for _ in range(V + 1)] for _ in range(M)],
+                table=[[round(rng.gauss(0, 1.2), 3) for _ in range(V)] for _ in range(M)])
+    if rng.random() < 0.4:
+        off = rng.choice([0.0, 2.0, -3.0, 5.5])
+        leaf["raw"] = True
+        leaf["table"] = [[round(v + off, 3) for v in r_] for r_ in leaf["table"]]
+    return leaf
+
+
+def gen_search_composite(rng):
+    """the fused language model is a COMPOSITE from the library: MixableShallowFusionLanguageModel(first, second, beta2),
+    possibly nested on either side, with custom state-key prefixes; its leaves are finite-state test LMs whose state is
+    laid out in five different ways (long vector / float one-hot rows / one-hot with the batch dimension last / two
+    entries of different shapes / (1, B, 1)), under the same or different key names, of the same or different sizes, a
+    stateless leaf that re-reads the history, or the library's bigram LookupLanguageModel; inner betas 0 / positive /
+    negative; explicit initial state for all, some or none of the leaves, different per batch element; plain and
+    valid-mixture fusion; ragged batches with empty elements.  'twin' regime: every leaf has the SAME class, key, size
+    and shapes (two RNNs of one size), so that a state routed to the wrong part raises nothing.  A share of the cases
+    uses a single leaf (no wrapper) in one of the five layouts: CTCPrefixSearch's own extract_by_src / mix_by_mask calls.
+    The oracle recomputes the fused row of every prefix from scratch (_comp_rows)."""
+    V = rng.choice([1, 2, 2, 2, 3, 3, 4])
+    Tmax = {1: 5, 2: 5, 3: 4, 4: 3}[V]
+    T = rng.choice([0, 1] + list(range(2, Tmax + 1)) * 4)
+    N = rng.choice([1, 1, 2, 3])
+    reach = _nprefixes(V, T)
+    width = min(rng.choice([1, 2, 2, 3, 3, 4, 5, 6, 8, reach + 1]), 12)
+    case = dict(kind="search", T=T, N=N, V=V, width=width, lens=None,
+                logits=_rand_logits(rng, T, N, V, rng.choice(["dense", "dense", "dense", "mixed"])),
+                fusion=rng.choice(["plain", "mix"]), beta=rng.choice([0.25, 0.5, 1.0, 0.2, 0.7, 0.7, 0.0]))
+    if rng.random() < 0.5:
+        case["lens"] = [rng.choice([0, T, T, rng.randint(0, T), rng.randint(0, T)]) for _ in range(N)]
+    shape = rng.choice(["AB"] * 11 + ["(AB)C"] * 3 + ["A(BC)"] * 3 + ["(AB)(CD)"] + ["A"] * 2)
+    twin = shape != "A" and rng.random() < 0.4
+    if twin:
+        enc, key, M = rng.choice(FSM_ENCS[:-1]), rng.choice(COMP_KEYS), rng.choice([2, 3, 4, 5])
+        leaf = lambda: _gen_leaf(rng, V, enc, key, M)  # noqa: E731
+    elif shape == "A":
+        leaf = lambda: _gen_leaf(rng, V, rng.choice(FSM_ENCS[1:-1]))  # noqa: E731
+    else:
+        leaf = lambda: _gen_leaf(rng, V)  # noqa: E731
+
+    def fuse(a, b):
+        fp, sp = rng.choice(COMP_PREFIXES)
+        return dict(k="fuse", first=a, second=b, fp=fp, sp=sp, beta=rng.choice([0.0, 0.3, 0.7, 1.0, 1.5, 2.0, -0.5, 0.7, 1.0]))
+
+    if shape == "A":
+        tree = leaf()
+    elif shape == "AB":
+        tree = fuse(leaf(), leaf())
+    elif shape == "(AB)C":
+        tree = fuse(fuse(leaf(), leaf()), leaf())
+    elif shape == "A(BC)":
+        tree = fuse(leaf(), fuse(leaf(), leaf()))
+    else:
+        tree = fuse(fuse(leaf(), leaf()), fuse(leaf(), leaf()))
+    leaves = _comp_leaves(tree)
+    if all(l["k"] == "lookup" or l.get("enc") == "hist" for l in leaves):
+        leaves[-1].update(_gen_leaf(rng, V, rng.choice(FSM_ENCS[:-1])))      # at least one stateful part
+        leaves[-1].pop("sos", None), leaves[-1].pop("bi", None)
+    if rng.random() < 0.45:
+        share = rng.choice([1.0, 1.0, 0.6])
+        for l in leaves:
+            if l["k"] == "fsm" and l["enc"] != "hist" and rng.random() < share:
+                l["s0s"] = [rng.randrange(l["M"]) for _ in range(N)]
+    case["lm"] = dict(comp=tree, shape=shape, twin=twin)
+    if rng.random() < 0.1:
+        case["dtype"] = "float32"
+    if rng.random() < 0.3:
+        case["via"], case["form"] = rng.choice([v for v in SEARCH_VIAS if v != "script" and not (
+            v == "i32lens" and case["lens"] is None)]), rng.randrange(12)
+    return case
+
+
+def _comp_situations(chk, c, out):
+    lm = c.get("lm")
+    if not lm or not lm.get("comp") or c["fusion"] == "none" or not c["beta"] or "exc" in out:
+        return
+    tree = lm["comp"]
+    leaves = _comp_leaves(tree)
+    stateful = [l for l in leaves if l["k"] == "fsm" and l["enc"] != "hist"]
+    chk.count("composite:shape=%s" % lm.get("shape"))
+    for l in leaves:
+        chk.count("composite:leaf=%s" % (l["k"] if l["k"] != "fsm" else l["enc"]))
+    if tree["k"] != "fuse":
+        return
+    # a non-empty prefix alive at the start of some frame t >= 1 that the element really processes: from then on the
+    # scores depend on the states that were extracted / mixed after the previous frame
+    V = c["V"]
+    alive = any(_len_of(c, n) >= 2 and len(e["choices"]) >= 2 and any(u < V for u in e["choices"][0])
+                for n, e in enumerate(out["elems"]))
+    sec = _comp_leaves(tree["second"])
+    sec_stateful = any(l["k"] == "fsm" and l["enc"] != "hist" for l in sec)
+    chk.count("composite:inner_beta%s0,second_%s" % ("!=" if tree["beta"] else "=", "stateful" if sec_stateful else "stateless"))
+    if tree["beta"] and sec_stateful and alive:
+        same = len({(l["enc"], l["key"], l["M"]) for l in stateful}) == 1 and len(stateful) == len(leaves)
+        chk.count("situation:composite_lm,inner_beta!=0,second_stateful,%s_state_layout,nonempty_prefix_alive_at_frame>=1"
+                  % ("same" if same else "different"))
+    if any(l.get("s0s") is not None for l in stateful):
+        chk.count("composite:explicit_initial_state=%s" % ("all" if all(l.get("s0s") is not None for l in stateful) else "some"))
+    if tree.get("fp") is not None:
+        chk.count("composite:custom_prefixes")
+
+
 def situation_counts(chk, c, out):
     """histogram of the situations the independent reviews singled out, read off the recorded topk answers"""
     if "exc" in out:
         return
+    _comp_situations(chk, c, out)
     V = c["V"]
     for n, e in enumerate(out["elems"]):
         ch = e["choices"]
@@ -1149,8 +1521,7 @@ def _cands(case):
         if N > 1:
             c2 = dict(case, N=N - 1, logits=[[r for i, r in enumerate(row) if i != n] for row in case["logits"]],
                       lens=None if case["lens"] is None else [l for i, l in enumerate(case["lens"]) if i != n])
-            if case.get("lm") and case["lm"].get("h0s") is not None:
-                c2["lm"] = dict(case["lm"], h0s=[h for i, h in enumerate(case["lm"]["h0s"]) if i != n])
+            c2["lm"] = _lm_pick(case.get("lm"), [i for i in range(N) if i != n])
             yield c2
     if T > 0:
         yield dict(case, T=T - 1, logits=case["logits"][:-1],
@@ -1263,6 +1634,11 @@ def gen_cases(chk):
         if rng.random() < 0.3:
             N = rng.choice([2, 3])
             c["batch"] = [N, rng.randrange(N)]
+    # composite fused language models (drawn last: the streams above keep their draws)
+    for i in range(2000 if thorough else 130):
+        c = gen_search_composite(rng)
+        c["stream"] = "search-composite-lm"
+        cases.append(c)
     return cases
 
 
